@@ -46,6 +46,31 @@ class C15(Prop):
     ]
     assumptions = ["wf_lib (no duplicate keys) for every library; holds for any BTreeMap"]
 
+    def extra(self, ctx):
+        """a `+` segment (or a base) that names no library: the run must refuse the configuration, not drop the segment"""
+        rnd = random.Random(ctx["seed"] + 15)
+        wd = os.path.join(core.CACHE, "work", "C15-missing")
+        shutil.rmtree(wd, ignore_errors=True)
+        out = []
+        for i in range(6 if ctx["tier"] == "quick" else 40):
+            pd = os.path.join(wd, str(i))
+            os.makedirs(pd, exist_ok=True)
+            open(os.path.join(pd, "have.yml"), "w").write("---\nglobals:\n  ga:\n    property: read-only\n")
+            std = rnd.choice(["have+nosuchlib", "nosuchlib+have", "lua51+nosuchlib", "have+lua51+nosuch2", "viabase"])
+            open(os.path.join(pd, "viabase.yml"), "w").write("---\nbase: %s\nglobals: {}\n" % rnd.choice(["nosuchlib", "have+nosuchlib"]))
+            open(os.path.join(pd, "selene.toml"), "w").write('std = "%s"\n' % std)
+            open(os.path.join(pd, "t.lua"), "w").write("print(1)\n")
+            rc, so, se = cli.run_selene(pd, ["--display-style", rnd.choice(["quiet", "json2"]), "t.lua"])
+            if rc == 0:
+                rp = os.path.join(core.VERIF, "replays", "C15-missing-%d-seed%d.json" % (i, ctx["seed"]))
+                core.write_json(rp, {"property": "C15", "kind": "missing-segment", "std": std, "exit": rc, "stdout": so[-800:], "stderr": se[-800:],
+                                     "viabase.yml": open(os.path.join(pd, "viabase.yml")).read()})
+                out.append({"kind": "spec", "replay": rp, "found_input": True,
+                            "text": "std = %r names a library that does not exist, and the run went ahead (exit 0) as if the segment were not there" % std})
+        ctx["cov"]["missing_segment_runs"] = 6 if ctx["tier"] == "quick" else 40
+        shutil.rmtree(wd, ignore_errors=True)
+        return out
+
     def nontrivial(self, d):
         if d.get("kind") == "pair":
             return d.get("shared_keys", 0) > 0 or d.get("removed", 0) > 0 or d.get("both_versions")
@@ -68,11 +93,17 @@ class C15(Prop):
             os.makedirs(pd, exist_ok=True)
             nseg = rnd.choice([1, 2, 2, 3])
             segs, names = [], []
+            # one file of the project may be named like a built-in library: the project's file is what that name means
+            builtin_at = (rnd.randrange(nseg), rnd.randrange(3), rnd.choice(["lua51", "lua52", "lua53", "luau"])) if rnd.randint(0, 2) == 0 else None
+
+            def fname(sidx, j):
+                return builtin_at[2] if builtin_at and builtin_at[:2] == (sidx, j) else "s%d_%d" % (sidx, j)
             for sidx in range(nseg):
                 depth = rnd.choice([1, 1, 2, 3])
                 chain = []
+                extra_entries = None
                 for j in range(depth):
-                    nm = "s%d_%d" % (sidx, j)
+                    nm = fname(sidx, j)
                     last_of_all = sidx == nseg - 1 and j == depth - 1
                     entries = {}
                     if rnd.randint(0, 5) > 0:            # a sixth of the files have no globals
@@ -91,11 +122,19 @@ class C15(Prop):
                     if j == depth - 1 and depth > 1:
                         doc["structs"] = {"Shape": {"w": {"property": "read-only"}, "h": {"property": "read-only"}}}
                     if j + 1 < depth:
-                        doc["base"] = "s%d_%d" % (sidx, j + 1)
+                        doc["base"] = fname(sidx, j + 1)
+                        if j + 2 == depth and rnd.randint(0, 2) == 0:
+                            # the base is itself a `+` chain of two single files: last+extra (the derived file's removals apply to both)
+                            extra_entries = {g: "property" for g in NAMES if rnd.randint(0, 2) == 0}
+                            open(os.path.join(pd, "x%d.yml" % sidx), "w").write("---\n" + yaml.safe_dump(
+                                {"globals": {k: {"property": "read-only"} for k in extra_entries}}))
+                            doc["base"] = fname(sidx, j + 1) + "+x%d" % sidx
                     open(os.path.join(pd, nm + ".yml"), "w").write("---\n" + yaml.safe_dump(doc))
                     chain.append(entries)
+                if extra_entries is not None:
+                    chain.append(extra_entries)
                 segs.append(chain)
-                names.append("s%d_0" % sidx)
+                names.append(fname(sidx, 0))
             std = "+".join(names)
             open(os.path.join(pd, "selene.toml"), "w").write('std = "%s"\n' % std)
             open(os.path.join(pd, "t.lua"), "w").write("".join("local _%s = %s\n" % (g, g) for g in NAMES))
